@@ -9,10 +9,10 @@ use crate::engine::*;
 use crate::refs::cp::{self, ref_decode, MARKERS};
 
 fn decode(b: &[u8]) -> Result<String, Fail> {
-    guard(|| to_lossy_string(b).into_owned()).map_err(|p| Fail::new("c10:decode-panic", format!("{}: {p}", hex(b))))
+    guard(|| to_lossy_string(b).into_owned()).map_err(|p| Fail::new("c10:decode-panic", format!("{} ({} bytes): {p}", hex(&b[..b.len().min(64)]), b.len())))
 }
 fn encode(s: &str) -> Result<Vec<u8>, Fail> {
-    guard(|| to_lossy_bytes(s).into_owned()).map_err(|p| Fail::new("c10:encode-panic", format!("{s:?}: {p}")))
+    guard(|| to_lossy_bytes(s).into_owned()).map_err(|p| Fail::new("c10:encode-panic", format!("{:?} ({} characters): {p}", s.chars().take(64).collect::<String>(), s.chars().count())))
 }
 
 /// classify a decode mismatch on a constructed wire string by root cause
@@ -686,25 +686,28 @@ impl Part for ContextFree {
             Ok((d == s, w, d))
         };
         let ab = format!("{}{}", c.0, c.1);
+        let cut = |s: &str| -> String { s.chars().take(48).collect() };
         let (ra, wa, da) = rt(&c.0)?;
         let (rb, wb, db) = rt(&c.1)?;
         let (rab, wab, dab) = rt(&ab)?;
         ensure!(
             rab == (ra && rb),
             "c10:roundtrip-depends-on-context",
-            "{:?} -> {} -> {:?} ({}), {:?} -> {} -> {:?} ({}), but together {:?} -> {} -> {:?} ({})",
-            c.0,
-            hex(&wa),
-            da,
+            "{:?} -> {} -> {:?} ({}), {:?} -> {} -> {:?} ({}), but together {:?} -> {} -> {:?} ({}) [texts of {} + {} characters, shown cut to 48]",
+            cut(&c.0),
+            hex(&wa[..wa.len().min(48)]),
+            cut(&da),
             if ra { "survives" } else { "does not survive" },
-            c.1,
-            hex(&wb),
-            db,
+            cut(&c.1),
+            hex(&wb[..wb.len().min(48)]),
+            cut(&db),
             if rb { "survives" } else { "does not survive" },
-            ab,
-            hex(&wab),
-            dab,
-            if rab { "survives" } else { "does not survive" }
+            cut(&ab),
+            hex(&wab[..wab.len().min(48)]),
+            cut(&dab),
+            if rab { "survives" } else { "does not survive" },
+            c.0.chars().count(),
+            c.1.chars().count()
         );
         if !c.0.is_empty() && !c.1.is_empty() {
             ev.nontrivial(c);
@@ -788,6 +791,15 @@ pub fn run(run: &mut Run) {
     run.prop(&RandomBytes, bytes_strategy(), n);
     let n = run.budget(100_000, 5_000_000);
     run.prop(&RandomUnicode, proptest::collection::vec(any::<char>(), 0..24).prop_map(|v| v.into_iter().collect::<String>()), n);
+    // inputs of 16 MiB and more (an offset packed into 24 bits, a u24 / u32 length): a marker early or late in the text
+    {
+        let mut huge: Vec<(String, String)> = vec![];
+        for n in [(1usize << 24) - 2, 1 << 24, (1 << 24) + 3] {
+            huge.push((format!("ш{}", "a".repeat(n)), "é".to_string()));
+            huge.push(("a".repeat(n), "ěш".to_string()));
+        }
+        run.list(&ContextFree, "round-trip-is-context-free", huge);
+    }
     // context independence of the round trip, over ASCII, the table repertoires, all of U+0080..U+00FF and arbitrary characters
     let tables = cp::tables();
     let ch = prop_oneof![
@@ -808,6 +820,11 @@ pub fn run(run: &mut Run) {
         for n in [255usize, 256, 257, 65_535, 65_536, 65_537] {
             runs.push((unit.repeat(n), unit.to_string()));
         }
+    }
+    // ... and texts that switch codepage on every character, 2 .. 400 times
+    for n in [1usize, 20, 31, 32, 33, 63, 64, 65, 66, 127, 128, 129, 200] {
+        runs.push(("ěш".repeat(n), "ěш".to_string()));
+        runs.push(("éωł".repeat(n), "a".to_string()));
     }
     run.list(&ContextFree, "round-trip-is-context-free", runs);
 }
